@@ -58,6 +58,11 @@ func (c *HTTPResponder) Write(status int, body io.Reader) (written int64, err er
 		return 0, nil // The 502 is a complete response of its own
 	}
 	c.writeStatusHeader(status)
+	if (status >= 100 && status < 200) || status == http.StatusNoContent || status == http.StatusNotModified {
+		// These never carry a body: net/http refuses to write one, which must not be mistaken for a
+		// response that broke off. Whatever an origin sent along is dropped.
+		return 0, nil
+	}
 	return io.Copy(c.writer, body)
 }
 
